@@ -1183,3 +1183,51 @@ def gen_golden_rewrite(kind, kt, golden_dir):
     s.op("note", conj="C12.stable", same=["released", "now"])
     s.op("decode", dir="g", name="m", native=True)
     return s
+
+
+def gen_probe(ranges_val, key_max, key_offsets, name="probe", chunk=400000):
+    """C09: the layout-probe hook: the crate's own sizing decision for every length in the ranges"""
+    s = Script(0, design=False, name=name)
+    for (a, b) in ranges_val:
+        x = a
+        while x <= b:
+            y = min(b, x + chunk - 1)
+            s.op("probe_val", **{"from": x, "to": y})
+            x = y + 1
+    for voff in key_offsets[0]:
+        for nxt in key_offsets[1]:
+            s.op("probe_key", **{"from": 0, "to": key_max, "voff": voff, "nxt": nxt})
+    return s
+
+
+def gen_sweep(seed, idbase=0, lens=None, kt="bytes", name="sweep"):
+    """C09 end to end: every length in `lens` stored between two sentinel entries, overwritten by
+    len+1 and len-1 (across slot-size boundaries), decoded after each step"""
+    rng = random.Random(seed)
+    s = Script(idbase, design=True, name=name)
+    s.op("open_db", db=0, dir="d")
+    s.op("map", h=1, db=0, name="m", kt=kt, params={"buckets": ["BucketsSize", 4]})
+    dec = dict(dir="d", name="m", flush_h=1, native=True)
+    sa, sb = s.key(9), s.key(13)
+    k = s.key(12)
+    va, vb = s.newval(33), s.newval(77)
+    for ln in lens:
+        v0, v1, v2 = s.newval(ln), s.newval(ln + 1), s.newval(max(0, ln - 1))
+        s.op("put", h=1, k=sa, v=va)
+        s.op("put", h=1, k=k, v=v0)
+        s.op("put", h=1, k=sb, v=vb)
+        s.op("decode", **dec)
+        s.op("put", h=1, k=k, v=v1)
+        s.op("decode", **dec)
+        s.op("put", h=1, k=k, v=v2)
+        s.op("decode", **dec)
+        s.op("get", h=1, k=k)
+        s.op("get", h=1, k=sa)
+        s.op("get", h=1, k=sb)
+        s.op("del", h=1, k=sa)
+        s.op("del", h=1, k=k)
+        s.op("del", h=1, k=sb)
+    s.op("decode", **dec)
+    s.op("new_process")
+    s.op("decode", dir="d", name="m", native=True)
+    return s
